@@ -115,7 +115,12 @@ def gen_plan(seed: int, run: int, tier: str) -> dict:
         "pool": rng.choice([1, 2, 3, 10]),
         "snapshot_interval": rng.choice([2, 3, 100]),
     }
-    return {"check": ID, "seed": seed, "run": run, "cfg": cfg, "setup": setup, "tasks": tasks, "sched": {"seed": rng.getrandbits(48)}}
+    plan = {"check": ID, "seed": seed, "run": run, "cfg": cfg, "setup": setup, "tasks": tasks, "sched": {"seed": rng.getrandbits(48)}}
+    if kind.startswith("grpc(") and rng.random() < 0.35:
+        # connection resets: before delivery (the call is not executed) or after execution
+        # (executed, the client sees UNAVAILABLE - the ambiguous case)
+        plan["rpc_faults"] = [{"task": rng.choice(names), "nth": rng.randint(0, 6), "phase": rng.choice(["pre", "post"])} for _ in range(rng.randint(1, 2))]
+    return plan
 
 
 def _task_script(rng: random.Random, g: gen.OpGen, me: str, nobj: int, shared_running: list[str], shared_waiting: list[str], used_params: set, n: int) -> list[dict]:
@@ -183,8 +188,14 @@ def _task_script(rng: random.Random, g: gen.OpGen, me: str, nobj: int, shared_ru
                     st = rng.choice(["COMPLETE", "FAIL"])
                     vals = [cf(g.objective_value()) for _ in range(own_nobj.get(th, nobj))] if st == "COMPLETE" else None
                     out.append({"op": "set_trial_state_values", "trial": th, "state": st, "values": vals})
-        elif r < 0.72:
+        elif r < 0.70:
             out.append({"op": rng.choice(["set_study_user_attr", "set_study_system_attr"]), "study": "S0", "key": rng.choice(["a", "b"]), "value": "%s%d" % (me, g.uniq())})
+        elif r < 0.72:
+            # delete a study created by this task (later writes to its trials must raise KeyError)
+            if own_studies:
+                out.append({"op": "delete_study", "study": rng.choice(own_studies)})
+            else:
+                continue
         else:
             kind = rng.choice(["get_all_trials", "get_all_trials", "get_trial", "get_n_trials", "number_lookup", "get_best_trial", "get_all_studies", "get_study_id_from_name", "get_study_user_attrs"])
             if kind == "get_all_trials":
@@ -214,6 +225,8 @@ def _task_script(rng: random.Random, g: gen.OpGen, me: str, nobj: int, shared_ru
 def shrink_paths(plan: dict) -> list[tuple]:
     paths: list[tuple] = [("tasks", n, "ops") for n in plan["tasks"]]
     paths.append(("setup",))
+    if "rpc_faults" in plan:
+        paths.append(("rpc_faults",))
     paths.append(("sched", "table"))
     return paths
 
@@ -276,6 +289,20 @@ def _run(plan: dict, sim: sched.Sim, ch: sched.Chooser, dep: deploy.Deployment, 
     if "S0" not in env.real:
         return common.result(sim, ch, "ok", nontrivial=False)
     history: list[dict] = []
+    rpc_faults = [dict(f) for f in plan.get("rpc_faults", [])]
+    rpc_count: dict[str, int] = {}
+    if dep.server is not None and rpc_faults:
+
+        def rpc_fault(task: str, method: str, phase: str) -> bool:
+            if phase == "pre":
+                rpc_count[task] = rpc_count.get(task, 0) + 1
+            for f in rpc_faults:
+                if f["task"] == task and f["phase"] == phase and f["nth"] == rpc_count.get(task, 0) - 1 and not f.get("fired"):
+                    f["fired"] = True
+                    return True
+            return False
+
+        dep.server.fault = rpc_fault
 
     def make_task(name: str, t: dict) -> Any:
         st = storages[t["proc"]]
@@ -289,6 +316,18 @@ def _run(plan: dict, sim: sched.Sim, ch: sched.Chooser, dep: deploy.Deployment, 
                     continue
                 if res[0] == "ok" and op["op"] in ("create_new_study", "create_new_trial"):
                     env.real[op["as"]] = res[1][1]
+                if res[0] == "err" and res[1] == "SimRpcError" and "connection reset" in res[2]:
+                    if "before delivery" in res[2]:
+                        sim.note("rpc-reset-pre", name, op["op"])
+                        continue  # never executed: must have no effect (the final state checks that)
+                    # executed, outcome unknown to the client: ambiguous operation
+                    h["res"] = None
+                    h["ret"] = None
+                    sim.note("rpc-reset-post", name, op["op"])
+                    history.append(h)
+                    if op["op"].startswith("get_"):
+                        history.pop()
+                    continue
                 h["res"] = res
                 h["ret"] = sim.stamp()
                 sim.note("ret", name, res[:2] if res[0] == "err" else _digestable(res))
@@ -312,7 +351,7 @@ def _run(plan: dict, sim: sched.Sim, ch: sched.Chooser, dep: deploy.Deployment, 
             raise RuntimeError("task %s died: %r" % (t.name, t.exc)) from t.exc
     # unexpected exception classes are reported directly (readable signature)
     for h in history:
-        if h["res"][0] == "err" and h["res"][1] not in DOCUMENTED:
+        if h["res"] is not None and h["res"][0] == "err" and h["res"][1] not in DOCUMENTED:
             return common.result(sim, ch, "violation", prefix + "unexpected-exception|%s in %s" % (h["res"][1], h["op"]["op"]), "%s %s -> %s" % (h["task"], json.dumps(h["op"])[:300], h["res"][2]))
     # final state read by a fresh observer, appended as sequential reads
     seams.set_sim(sim, dep.fs)
@@ -338,7 +377,7 @@ def _run(plan: dict, sim: sched.Sim, ch: sched.Chooser, dep: deploy.Deployment, 
         if kind_of == "nonlinearizable":
             # two concurrent set_trial_param calls with incompatible distributions for one
             # name both succeeded?  (check-then-insert without a lock in the RDB backend)
-            okp = [h for h in history if h["op"]["op"] == "set_trial_param" and h["res"][0] == "ok"]
+            okp = [h for h in history if h["op"]["op"] == "set_trial_param" and h["res"] is not None and h["res"][0] == "ok"]
             keys: dict[str, set] = {}
             for h in okp:
                 keys.setdefault(h["op"]["name"], set()).add(json.dumps(ops.compat_key(h["op"]["dist"])))
@@ -348,7 +387,7 @@ def _run(plan: dict, sim: sched.Sim, ch: sched.Chooser, dep: deploy.Deployment, 
                 lin3 = linearize.check(history, m2, env, max_nodes=60000)
                 if lin3["ok"] and not lin3["inconclusive"]:
                     kind_of = "param-compat-race"
-        hist = ["%s[%s..%s] %s -> %s" % (h["task"], h["inv"], h["ret"], _short(h["op"]), _res_short(h["res"])) for h in history if h["task"] != "observer"]
+        hist = ["%s[%s..%s] %s -> %s" % (h["task"], h["inv"], h["ret"], _short(h["op"]), "AMBIGUOUS (connection reset after execution)" if h["ret"] is None else _res_short(h["res"])) for h in history if h["task"] != "observer"]
         return common.result(sim, ch, "violation", prefix + kind_of + "|" + lin["why"][:160], "history:\n  " + "\n  ".join(hist) + "\ndeepest failure: " + lin["why"])
     if post is not None:
         r = post({"history": history, "env": env, "dep": dep, "storages": storages, "model0": m, "lin": lin, "prefix": prefix, "sim": sim, "ch": ch})
